@@ -88,7 +88,8 @@ def search_case(draw):
     ispec = draw(dyn.integrator_spec(spec["cls"]))
     scale = draw(st.sampled_from([1.0, 1.0, 30.0, 0.03]))
     return {"kind": "search", "sys": spec, "int": ispec, "q": draw(vec(n, -1.2, 1.2)),
-            "p": [scale * x for x in draw(vec(n, -1.5, 1.5))], "max_iters": draw(st.sampled_from([100, 100, 100, 3]))}
+            "p": [scale * x for x in draw(vec(n, -1.5, 1.5))], "max_iters": draw(st.sampled_from([100, 100, 100, 3])),
+            "reg_target": draw(st.sampled_from([None, None, 0.0, -1.0, 0.7, 0]))}
 
 
 def strategy(tier):
@@ -323,7 +324,8 @@ def run_search(res, case):
     state, q0, p0 = made
     integ = dyn.build_integrator(ispec, system)
     res.classes += ["search", "int:" + ispec["type"], "sys:" + spec["cls"]]
-    ad = ma.DualAveragingStepSizeAdapter(max_init_step_size_iters=case["max_iters"])
+    ad = ma.DualAveragingStepSizeAdapter(max_init_step_size_iters=case["max_iters"],
+                                         log_step_size_reg_target=case.get("reg_target"))
 
     class T:
         pass
@@ -350,8 +352,18 @@ def run_search(res, case):
     if not (eps > 0 and abs(k - round(k)) < 1e-12):
         res.fail("C17:search:not-a-power-of-two", f"search returned {eps!r}")
         return
-    if abs(stt["log_step_size_reg_target"] - math.log(10 * eps)) > 1e-12 * (1 + abs(math.log(10 * eps))):
-        res.fail("C17:search:regularisation-target", "log_step_size_reg_target is not log(10 * initial step size)")
+    want = math.log(10 * eps) if case.get("reg_target") is None else float(case["reg_target"])
+    if abs(stt["log_step_size_reg_target"] - want) > 1e-12 * (1 + abs(want)):
+        res.fail("C17:search:regularisation-target", f"adapter state has log_step_size_reg_target = "
+                 f"{stt['log_step_size_reg_target']!r}; documented: the supplied value {case.get('reg_target')!r}, or "
+                 f"log(10 * initial step size) = {math.log(10 * eps)!r} when none is given")
+    # the recursion started from that state must follow the documented regularisation target
+    tr2 = _Trans()
+    ad.update(stt, None, {"accept_stat": 0.5}, tr2)
+    ref1, _ = dual_averaging_reference([0.5], 0.8, 0.05, 0.75, 10, want)
+    if abs(tr2.integrator.step_size - ref1[0]) > 1e-12 * ref1[0]:
+        res.fail("C17:search:first-update-after-initialize", f"first update after initialize gives {tr2.integrator.step_size!r}, "
+                 f"the documented recursion with target {want!r} gives {ref1[0]!r}")
     h0 = model.h(q0, p0)
 
     def delta(e):
